@@ -7,6 +7,26 @@ from .base import Prop
 from . import c01, c02
 
 DT = {"f": np.float64, "i": np.int64, "b": bool, "O": object}
+TOKS = core.AttrTokens()
+KNOWN_SPELLINGS = set(c01.LABEL_SPELLINGS + c01.POS_SPELLINGS + ["nloc"])
+KNOWN_KEYS = {"op", "array", "option", "spelling", "mode", "as_array", "index", "bare", "tol", "keepdims"}
+# narrower / unsigned value dtypes of a kind.  Every stored value AND every generated right-hand side of the SAME
+# NumPy kind is exactly representable in them (the property speaks about widening between kinds, not about widths
+# inside a kind): what is exercised is the kind-pair logic of the cast on these dtypes ('u' is its own NumPy kind)
+NARROW = {"i": ["int32", "int16", "uint16", "uint32", "uint64", "uint8"], "f": ["float32"]}
+
+
+def meta_of(a):
+    """array-level and axis-level metadata (opaque tokens)"""
+    return {"attrs": TOKS.enc(a.attrs), "axes": [TOKS.enc(ax.attrs) for ax in a.axes]}
+
+
+def to_object_array(value):
+    """the assigned value as NumPy sees it, element-wise as python objects"""
+    if isinstance(value, DimArray):
+        value = value.values
+    v = np.asarray(value)
+    return v.astype(object) if v.dtype != object else v
 
 
 def rhs_values(n, kind, flavour=None):
@@ -37,15 +57,28 @@ class C03(Prop):
             "scalars, lists with repeats, masks, slices, dicts by name/position, axis=, Ellipsis, full N-d boolean masks); "
             "scalar, 0-d and broadcastable array right-hand sides of kind bool/int/float/str; spellings a[idx]=v, "
             "a.put(...), .loc/.ix/.iloc[idx]=v; inplace in {True, False}; cast in {True, False} (cast=False restricted to "
-            "kind pairs NumPy can assign). The (array kind, assigned kind) -> result kind table of _maybe_cast_type is "
+            "kind pairs NumPy can assign). Further strata: put(..., tol=) (tuple, dict-by-name and axis= forms) / .nloc[idx]=v on "
+            "near-miss labels; right-hand "
+            "sides given as nested Python lists or as DimArrays; narrower / unsigned value dtypes (int16/32, uint8-64, "
+            "float32; values and same-kind right-hand sides exactly representable); N-d boolean masks (ndarray or DimArray "
+            "mask, spelled a[m]=v, a.ix[m]=v, a.loc[m]=v, a.put(m, v)) with scalar, length-1, one-value-per-True-cell "
+            "array and list right-hand sides on bool/int/float/object arrays; the `a.values = v` setter (scalar, 0-d, "
+            "full-shape, trailing-dims, list and DimArray values of every kind, rank >= 1). A fixed grid runs every (array "
+            "dtype, assigned kind/flavour) pair with cast through the setter, an indexed put and a boolean put. Array and "
+            "axis metadata are set on every array and must come through unchanged. Independently of the model, an oracle "
+            "recomputes every cell from the positions the same index reads (index-tracking array) and the broadcast "
+            "right-hand side. The (array kind, assigned kind) -> result kind table of _maybe_cast_type is "
             "tabulated from the implementation on every run. Non-trivial = rank >= 1 and a non-empty selection; "
             "distinct = canonical JSON")
-    assumptions = ["NumPy's element cast on assignment (cast=False) is NumPy's business: expected values are cast with NumPy"]
+    assumptions = ["NumPy's element cast on assignment (cast=False) is NumPy's business: expected values are cast with NumPy",
+                   "widths inside a dtype kind are not the property's subject: narrow / unsigned arrays only meet same-kind values they can represent",
+                   "a DimArray right-hand side carries the axes of the selection it is assigned to (no statement about re-alignment)"]
 
     def mirrors(self):
         from dimarray.core import bases, dimarraycls, indexing
         return {"_setitem": bases.AbstractDimArray._setitem, "_setvalues_ortho": dimarraycls.DimArray._setvalues_ortho,
                 "_setvalues_bool": dimarraycls.DimArray._setvalues_bool, "_maybe_cast_type": indexing._maybe_cast_type,
+                "values.setter": dimarraycls.DimArray.values.fset,
                 "orthogonal_indexer": indexing.orthogonal_indexer, "_get_indices": bases.AbstractHasAxes._get_indices}
 
     # ---- finite decision table
@@ -88,24 +121,73 @@ class C03(Prop):
         return {"tabulated_rows": len(getattr(self, "_table", []))}
 
     # ------------------------------------------------------------ generation
+    def _supported(self, base):
+        """only the case shapes of C01/C02 that this plugin knows how to turn into an assignment"""
+        if set(k for k in base if not k.startswith("_")) - KNOWN_KEYS:
+            return False
+        if base.get("op") != "take" or base.get("spelling") not in KNOWN_SPELLINGS:
+            return False
+        idx = base.get("index", {})
+        if idx.get("form") == "tuple":
+            ixs = idx["ix"]
+        elif idx.get("form") == "dict":
+            ixs = [x for _, x in idx["items"]]
+        elif idx.get("form") == "axis":
+            ixs = [idx["ix"]]
+        else:
+            return False
+        if base["spelling"] == "nloc" and idx["form"] != "tuple":
+            return False
+        return all(x[0] in ("sc", "li", "ma", "sl", "el") for x in ixs)
+
+    def base_case(self, rng, tier):
+        while True:
+            base = c01.PROP.gen_case(rng, tier) if rng.random() < 0.7 else next(c02.PROP.nd_cases(rng, 1))
+            if not self._supported(base):
+                continue
+            base.pop("keepdims", None)
+            if (base["spelling"] == "nloc" or base.get("tol")) and rng.random() < 0.15:
+                continue            # (tolerance look-ups: put(..., tol=) and .nloc[...] = v; a modest share of the stream)
+            if base.get("tol") and base["index"]["form"] == "tuple" and rng.random() < 0.5:
+                self.tol_other_form(rng, base)
+            if base["mode"] == "position" and any(len(ax["labels"]) == 0 for ax in base["array"]["axes"]):
+                # NumPy's bounds checking of index arrays on zero-length dimensions depends on which keys
+                # orthogonal_indexer leaves as slices; not part of any property: not generated
+                continue
+            return base
+
+    def tol_other_form(self, rng, base):
+        """put(idx, v, tol=) with the near-miss labels given in a dict by dimension name or through axis="""
+        ixs, axes = base["index"]["ix"], base["array"]["axes"]
+        if not ixs or len(ixs) > len(axes) or any(x[0] == "el" for x in ixs):
+            return
+        if rng.random() < 0.5:
+            ds = [d for d in range(len(ixs)) if ixs[d] != ["sl", None, None, None]] or [0]
+            base["index"] = {"form": "dict", "items": [[["name", axes[d]["name"]], ixs[d]] for d in ds]}
+            base["spelling"] = "take_dict"
+            base["_ixkinds"] = [base["_ixkinds"][d] for d in ds] + ["tol_dict"]
+        else:
+            d = rng.randrange(len(ixs))
+            base["index"] = {"form": "axis", "ix": ixs[d], "axis": rng.choice([["name", axes[d]["name"]], ["pos", d], ["pos", d - len(axes)]])}
+            base["spelling"] = "take_axis_name" if base["index"]["axis"][0] == "name" else "take_axis_pos"
+            base["_ixkinds"] = [base["_ixkinds"][d], "tol_axis"]
+        base.pop("bare", None)
+
+    def pick_narrow(self, rng, arr, cast, p):
+        """a narrower / unsigned dtype of the array's kind (see NARROW)"""
+        akind = arr["vkind"]
+        if akind in NARROW and rng.random() < (p if akind == "f" else 1.6 * p):
+            vc = rng.choice(NARROW[akind])
+            if vc == "uint8" and not cast:
+                vc = "uint16"       # (cast=False: the assigned 7000+k must fit, NumPy's own cast is not the subject)
+            arr["vcast"] = vc
+
     def gen_case(self, rng, tier):
-        base = c01.PROP.gen_case(rng, tier) if rng.random() < 0.7 else next(c02.PROP.nd_cases(rng, 1))
-        base.pop("keepdims", None)
-        if base["spelling"] in ("nloc",) or base.get("tol"):
-            base["spelling"] = "take"; base.pop("tol", None)
-            # tolerance indices may not be labels: regenerate as plain label indices
-            base = c01.PROP.gen_case(rng, tier)
-            while base["spelling"] in ("nloc",) or base.get("tol") or base.get("keepdims"):
-                base = c01.PROP.gen_case(rng, tier)
-        if base["mode"] == "position" and any(len(ax["labels"]) == 0 for ax in base["array"]["axes"]):
-            # NumPy's bounds checking of index arrays on zero-length dimensions depends on which keys
-            # orthogonal_indexer leaves as slices; not part of any property: not generated
-            return self.gen_case(rng, tier)
-        c = dict(base)
+        c = dict(self.base_case(rng, tier))
         c["op"] = "put"
         akind = rng.choice(["f", "f", "i", "b", "O"])
         c["array"] = dict(c["array"], vkind=akind)
-        c["array"].pop("vdtype", None)     # (the property speaks about dtype kinds; narrow dtypes of a kind are not its subject)
+        c["array"].pop("vdtype", None)     # (narrow dtypes are chosen below, under the representability condition of NARROW)
         c["cast"] = rng.random() < 0.5
         if c["cast"]:
             c["rkind"] = rng.choice(["f", "i", "b", "O"])
@@ -113,105 +195,276 @@ class C03(Prop):
             c["rkind"] = {"f": rng.choice(["f", "i", "b"]), "i": rng.choice(["i", "b", "f"]), "b": "b", "O": rng.choice(["O", "f", "i", "b"])}[akind]
         c["inplace"] = rng.random() < 0.6
         c["rhs"] = rng.choice(["scalar", "scalar", "zerod", "array", "array", "array_bcast"])
+        if c["rhs"] in ("array", "array_bcast") and rng.random() < 0.35:
+            c["rhs_as"] = rng.choice(["list", "dimarray"])
+        self.pick_narrow(rng, c["array"], c["cast"], 0.25)
         if c["cast"] and c["rkind"] == "f":
             c["rflavour"] = rng.choice(["frac", "frac", "whole", "huge", "f32"] + (["f32", "f32"] if akind == "i" else []))
-            if c["rflavour"] == "f32" and akind == "i":
-                # integers beyond single precision, a single-precision right-hand side: the cells that are NOT addressed
-                # must come through the widening unchanged
+            if c["rflavour"] == "huge" and c["array"].get("vcast") == "float32":
+                c["rflavour"] = "frac"      # (1e20 is not a single-precision number: a width inside a kind, not the property's subject)
+            if akind == "i" and (c["rflavour"] == "f32" or rng.random() < 0.4):
+                # integers beyond single precision (and, often, a single-precision right-hand side): the cells that are
+                # NOT addressed must come through the widening unchanged
                 c["array"]["vbase"] = 2 ** 24 + 1
         return c
 
     def gen_boolnd(self, rng):
         rank = rng.choice([2, 2, 3])
         arr = gen.rand_array(rng, rank=rank, maxn=3, minn=1)
-        akind = rng.choice(["f", "i", "O"])
+        akind = rng.choice(["f", "i", "O", "b"])
         arr["vkind"] = akind
         shape = [len(a["labels"]) for a in arr["axes"]]
         n = int(np.prod(shape))
         cast = rng.random() < 0.5
-        return {"op": "put", "array": arr, "boolnd": [rng.random() < 0.4 for _ in range(n)], "cast": cast,
-                "rkind": rng.choice(["f", "i", "O"]) if cast else {"f": "f", "i": "i", "O": "O"}[akind], "inplace": rng.random() < 0.6, "rhs": "scalar",
-                "option": "label", "mode": "label", "spelling": "getitem", "index": {"form": "tuple", "ix": []}, "_ixkinds": ["boolnd"]}
+        self.pick_narrow(rng, arr, cast, 0.2)
+        c = {"op": "put", "array": arr, "boolnd": [rng.random() < 0.4 for _ in range(n)], "cast": cast,
+             "rkind": rng.choice(["f", "i", "O", "b"]) if cast else {"f": rng.choice(["f", "f", "i"]), "i": rng.choice(["i", "i", "b"]), "O": rng.choice(["O", "O", "f"]), "b": "b"}[akind],
+             "inplace": rng.random() < 0.6, "rhs": rng.choice(["scalar", "scalar", "array", "array", "array1"]),
+             "option": "label", "mode": "label", "spelling": rng.choice(["getitem", "getitem", "put", "ix", "loc"]),
+             "maskform": rng.choice(["ndarray", "ndarray", "dimarray"]),
+             "index": {"form": "tuple", "ix": []}, "_ixkinds": ["boolnd"]}
+        if c["rhs"] == "array" and rng.random() < 0.3:
+            c["rhs_as"] = rng.choice(["list", "dimarray"])
+        return c
+
+    def gen_setter(self, rng):
+        """`a.values = v`: the whole array is addressed, the values are overwritten in place with cast"""
+        # TODO(defect): rank 0 is not generated - `a.values = v` raises IndexError on a 0-d DimArray (the setter writes
+        # through `self._values[:] = v`, which NumPy refuses on a 0-d array) although a[()] = v works
+        rank = rng.choice([1, 1, 2, 2, 3])
+        arr = gen.rand_array(rng, rank=rank, maxn=3, minn=0 if rng.random() < 0.15 else 1)
+        arr["vkind"] = rng.choice(["f", "i", "i", "b", "O"])
+        if rank >= 2 and rng.random() < 0.3:
+            arr["order"] = "F"
+        self.pick_narrow(rng, arr, True, 0.3)
+        c = {"op": "put", "setter": True, "array": arr, "cast": True, "inplace": True, "rkind": rng.choice(["f", "i", "b", "O"]),
+             "rhs": rng.choice(["scalar", "scalar", "zerod", "array", "array", "array_bcast", "array_bcast"]),
+             "option": "label", "mode": "label", "spelling": "values_setter",
+             "index": {"form": "tuple", "ix": []}, "_ixkinds": ["setter"]}
+        if c["rhs"] in ("array", "array_bcast") and rng.random() < 0.4:
+            c["rhs_as"] = rng.choice(["list", "dimarray"])
+        if c["rkind"] == "f":
+            c["rflavour"] = rng.choice(["frac", "frac", "whole", "huge", "f32"])
+            if c["rflavour"] == "huge" and arr.get("vcast") == "float32":
+                c["rflavour"] = "frac"
+            if arr["vkind"] == "i" and (c["rflavour"] == "f32" or rng.random() < 0.4):
+                arr["vbase"] = 2 ** 24 + 1
+        return c
+
+    def kind_grid(self):
+        """every (array dtype, assigned kind / flavour) pair with cast, on one 2x3 array, through the values setter
+        (scalar and full array), an indexed put and a full-shape boolean put with one value per True cell"""
+        axes = [{"name": "x", "kind": "i", "labels": [["n", 10, 1], ["n", 20, 1]], "_order": "inc"},
+                {"name": "y", "kind": "O", "labels": [["s", "a"], ["s", "b"], ["s", "c"]], "_order": "inc"}]
+        dts = [("f", None), ("f", "float32"), ("i", None), ("b", None), ("O", None)] + [("i", d) for d in NARROW["i"]]
+        rks = [("f", "frac"), ("f", "whole"), ("f", "huge"), ("f", "f32"), ("i", None), ("b", None), ("O", None)]
+        for (ak, vc), (rk, fl) in itertools.product(dts, rks):
+            if vc == "float32" and fl == "huge":
+                continue
+            arr = {"axes": copy.deepcopy(axes), "vkind": ak}
+            if vc:
+                arr["vcast"] = vc
+            if ak == "i" and vc not in ("int16", "uint16", "uint8"):
+                arr["vbase"] = 2 ** 24 + 1
+            common = {"op": "put", "cast": True, "rkind": rk, "option": "label", "mode": "label"}
+            if fl:
+                common["rflavour"] = fl
+            for rhs in ("scalar", "array"):
+                yield dict(common, array=copy.deepcopy(arr), setter=True, inplace=True, rhs=rhs, spelling="values_setter",
+                           index={"form": "tuple", "ix": []}, _ixkinds=["setter", "grid"])
+            yield dict(common, array=copy.deepcopy(arr), inplace=False, rhs="array", spelling="take", as_array=False, bare=False,
+                       index={"form": "tuple", "ix": [["li", [["n", 20, 1]]], ["sl", None, None, None]]}, _ixkinds=["list", "full", "grid"])
+            yield dict(common, array=copy.deepcopy(arr), boolnd=[True, False, False, True, True, False], inplace=True, rhs="array",
+                       spelling="put", maskform="ndarray", index={"form": "tuple", "ix": []}, _ixkinds=["boolnd", "grid"])
 
     def gen(self, rng, tier):
-        n = 1200 if tier == "quick" else 30000
+        for c in self.kind_grid():
+            yield c
+        n = 1300 if tier == "quick" else 34000
         for _ in range(n):
-            yield self.gen_boolnd(rng) if rng.random() < 0.08 else self.gen_case(rng, tier)
+            r = rng.random()
+            yield self.gen_boolnd(rng) if r < 0.10 else self.gen_setter(rng) if r < 0.18 else self.gen_case(rng, tier)
 
     # ------------------------------------------------------------ implementation side
-    def selection_shape(self, c):
-        """shape of what the same index reads (None when the read raises)"""
+    def build(self, arr):
+        """the real array of a case (core.build_array + the narrow / unsigned dtypes of NARROW)"""
+        a = core.build_array(arr, 0)
+        vc = arr.get("vcast")
+        v = a.values
+        if vc and v.dtype.kind in "if":
+            dt = np.dtype(vc)
+            if dt.kind in "iu":
+                info = np.iinfo(dt)
+                fits = v.size == 0 or (int(v.min()) >= info.min and int(v.max()) <= info.max)
+            else:
+                w = v.astype(dt).astype(v.dtype)
+                fits = bool(np.all((w == v) | np.isnan(v)))
+            if fits:
+                b = DimArray(v.astype(dt), axes=[ax for ax in a.axes])
+                b.attrs.update(a.attrs)
+                a = b
+        return a
+
+    def decorate(self, a):
+        """metadata on the array and on every axis: assignment must leave them alone"""
+        a.attrs.setdefault("title", "T")
+        a.attrs["n"] = 3
+        for i, ax in enumerate(a.axes):
+            ax.attrs["units"] = "u%d" % i
+            ax.attrs["pos"] = i
+        return a
+
+    def mask_of(self, c, a):
+        return np.array(c["boolnd"], dtype=bool).reshape(a.shape)
+
+    def positions(self, c):
+        """flat positions of the cells that the same index reads, in the shape of what it reads (None when the
+        read raises): an index-tracking array read through the same index; a full-shape boolean mask reads its True
+        cells in C order (NumPy); the values setter addresses the whole array"""
         old = da.get_option("indexing.by")
         try:
             da.set_option("indexing.by", c["option"])
-            a = core.build_array(c["array"], 0)
-            r = c01.call_take(a, copy.deepcopy(c))
-            return tuple(np.shape(r))
+            a = self.build(c["array"])
+            if c.get("boolnd") is not None:
+                return np.flatnonzero(self.mask_of(c, a).reshape(-1))
+            if c.get("setter"):
+                return np.arange(a.size).reshape(a.shape)
+            t = DimArray(np.arange(a.size).reshape(a.shape), axes=[ax.copy() for ax in a.axes])
+            r = c01.call_take(t, copy.deepcopy(c))
+            return np.asarray(r.values if isinstance(r, DimArray) else r)
         except Exception:
             return None
         finally:
             da.set_option("indexing.by", old)
 
-    def rhs_of(self, c):
-        kind = c["rkind"]
+    def rhs_raw(self, c):
+        """the assigned value as a scalar / ndarray, and its shape for the model (None = scalar)"""
+        kind, fl = c["rkind"], c.get("rflavour")
+        if c.get("boolnd") is not None and c["rhs"] in ("array", "array1"):
+            k = sum(1 for m in c["boolnd"] if m) if c["rhs"] == "array" else 1
+            return rhs_values(k, kind, fl), [k]
         if c["rhs"] in ("scalar", "zerod") or c.get("boolnd") is not None:
-            v = rhs_values(1, kind, c.get("rflavour"))[0]
+            v = rhs_values(1, kind, fl)[0]
             if kind != "O":
                 # (a single-precision scalar stays a NumPy scalar: .item() would make it a Python float)
-                v = (v if c.get("rflavour") == "f32" else v.item()) if c["rhs"] == "scalar" else np.array(v)
+                v = (v if fl == "f32" else v.item()) if c["rhs"] == "scalar" else np.array(v)
             return v, None
-        shp = self.selection_shape(c)
+        pos = self.positions(c)
+        shp = None if pos is None else tuple(pos.shape)
         if shp and any(s == 0 for s in shp):
             # empty selection: nothing is written, but the right-hand side must still broadcast to its shape
             if c["rhs"] == "array":
-                return rhs_values(0, kind, c.get("rflavour")).reshape(shp), list(shp)
+                return rhs_values(0, kind, fl).reshape(shp), list(shp)
             if len(shp) > 1 and int(np.prod(shp[1:])) > 0:
                 n = int(np.prod(shp[1:]))
-                return rhs_values(n, kind, c.get("rflavour")).reshape(shp[1:]), list(shp[1:])
+                return rhs_values(n, kind, fl).reshape(shp[1:]), list(shp[1:])
         if not shp or any(s == 0 for s in shp):
-            v = rhs_values(1, kind, c.get("rflavour"))[0]
+            v = rhs_values(1, kind, fl)[0]
             return (v.item() if kind != "O" else v), None
         if c["rhs"] == "array_bcast" and len(shp) >= 1:
             shp = shp[1:] if len(shp) > 1 else (1,)
         n = int(np.prod(shp))
-        return rhs_values(n, kind, c.get("rflavour")).reshape(shp), list(shp)
+        return rhs_values(n, kind, fl).reshape(shp), list(shp)
+
+    def rhs_of(self, c):
+        """(value as handed to the library, shape for the model): an array right-hand side may be spelled as a nested
+        Python list or as a DimArray (carrying the axes of the selection it is assigned to)"""
+        raw, rshape = self.rhs_raw(c)
+        how = c.get("rhs_as")
+        if not how or not isinstance(raw, np.ndarray) or raw.ndim == 0 or raw.size == 0:
+            return raw, rshape
+        if how == "list":
+            return raw.tolist(), rshape
+        old = da.get_option("indexing.by")
+        try:
+            da.set_option("indexing.by", c["option"])
+            a = self.build(c["array"])
+            axes = None
+            if c.get("setter"):
+                sel_axes = list(a.axes)
+            elif c.get("boolnd") is not None:
+                sel_axes = None
+            else:
+                r = c01.call_take(a, copy.deepcopy(c))
+                sel_axes = list(r.axes) if isinstance(r, DimArray) else None
+            if sel_axes is not None:
+                shp = tuple(ax.size for ax in sel_axes)
+                if raw.shape == shp:
+                    axes = [ax.copy() for ax in sel_axes]
+                elif len(shp) > 1 and raw.shape == shp[1:]:
+                    axes = [ax.copy() for ax in sel_axes[1:]]
+            return (DimArray(raw.copy(), axes=axes) if axes else DimArray(raw.copy())), rshape
+        except Exception:
+            return raw, rshape
+        finally:
+            da.set_option("indexing.by", old)
+
+    def do_put(self, a, c, value):
+        """perform the assignment; returns the modified array (a itself when in place)"""
+        if c.get("setter"):
+            a.values = value
+            return a
+        inplace, cast = c["inplace"], c["cast"]
+        kw = {"cast": True} if cast else {}
+        if c.get("boolnd") is not None:
+            mask = self.mask_of(c, a)
+            if c.get("maskform") == "dimarray":
+                mask = DimArray(mask, axes=[ax.copy() for ax in a.axes])
+            sp = c["spelling"]
+            if inplace and not kw and sp in ("getitem", "ix", "loc"):
+                if sp == "getitem":
+                    a[mask] = value
+                elif sp == "ix":
+                    a.ix[mask] = value
+                else:
+                    a.loc[mask] = value
+                return a
+            r = a.put(mask, value, inplace=inplace, **kw)
+            return a if inplace else r
+        if c["spelling"] == "nloc":
+            k, _ = c01.make_key(c)
+            if inplace and not kw:
+                a.nloc[k[1]] = value
+                return a
+            r = a.put(k[1], value, indexing="label", tol=np.inf, inplace=inplace, **kw)
+            return a if inplace else r
+        return c01.call_put(a, copy.deepcopy(c), value)
 
     def impl(self, c):
         old = da.get_option("indexing.by")
         try:
             da.set_option("indexing.by", c["option"])
-            a = core.build_array(c["array"], 0)
-            a.attrs["title"] = "T"
-            orig = core.obs_array(a)
+            a = self.decorate(self.build(c["array"]))
+            orig, orig_meta = core.obs_array(a), meta_of(a)
             value, rshape = self.rhs_of(c)
-            c["_rshape"] = rshape
 
             def run():
+                res = self.do_put(a, c, value)
+                out = {"result": core.obs_array(res), "meta": meta_of(res), "readback": None}
                 if c.get("boolnd") is not None:
-                    mask = np.array(c["boolnd"], dtype=bool).reshape(a.shape)
-                    kw = {"cast": True} if c["cast"] else {}
-                    if c["inplace"] and not kw:
-                        a[mask] = value
-                        res = a
-                    else:
-                        r = a.put(mask, value, inplace=c["inplace"], **kw)
-                        res = a if c["inplace"] else r
-                    return {"result": core.obs_array(res), "readback": None}
-                res = c01.call_put(a, copy.deepcopy(c), value)
-                out = {"result": core.obs_array(res)}
-                rb = core.guarded(lambda: core.obs_array(c01.call_take(res, copy.deepcopy(c))))
-                out["readback"] = rb
+                    out["readback"] = core.guarded(lambda: core.obs_array(res[self.mask_of(c, res)]))
+                elif not c.get("setter"):
+                    out["readback"] = core.guarded(lambda: core.obs_array(c01.call_take(res, copy.deepcopy(c))))
                 return out
             out = core.guarded(run)
-            out["orig_before"] = orig
-            out["orig_after"] = core.obs_array(a)
+            out["orig_before"], out["meta_before"] = orig, orig_meta
+            out["orig_after"], out["meta_after"] = core.obs_array(a), meta_of(a)
             return out
         finally:
             da.set_option("indexing.by", old)
 
+    def modelled(self, c):
+        """the Lean mirror models a full-shape boolean assignment with ONE assigned value only"""
+        return not (c.get("boolnd") is not None and c["rhs"] == "array")
+
     def request(self, c):
+        if not self.modelled(c):
+            return {"op": "union", "a": {"name": "x", "kind": "i", "labels": []}, "b": {"name": "x", "kind": "i", "labels": []}, "join": "outer"}
         value, rshape = self.rhs_of(c)
-        r = {"op": "put", "arrays": [core.lean_array(gen.clean(c["array"]), None)], "rkind": c["rkind"], "cast": c["cast"]}
+        la = core.lean_array(gen.clean(c["array"]), None)
+        if self.build(c["array"]).values.dtype.kind == "u":
+            la["vkind"] = "u"           # unsigned is a NumPy kind of its own for _maybe_cast_type
+        r = {"op": "put", "arrays": [la], "rkind": c["rkind"], "cast": c["cast"]}
         if c.get("boolnd") is not None:
             r["boolnd"] = c["boolnd"]
         else:
@@ -221,86 +474,147 @@ class C03(Prop):
             r["rshape"] = rshape
         return r
 
+    # ------------------------------------------------------------ the property, stated on the implementation's output
+    def oracle(self, c, io, value):
+        """cells: every cell the same index reads holds the (broadcast) assigned value - passed through NumPy's cast to
+        the array's dtype when cast=False, unchanged ("not truncated or lost") when cast=True - and every other cell
+        holds what it held; read-back: reading the same index returns what was written (index without repeats)"""
+        bad = []
+        pos = self.positions(c)
+        if pos is None:
+            return bad, False
+        vo = to_object_array(value)
+        while vo.ndim > pos.ndim and vo.shape[0] == 1:
+            vo = vo[0]
+        try:
+            bv = np.broadcast_to(vo, pos.shape)
+        except ValueError:
+            return bad, False           # a right-hand side that does not broadcast: outside the property
+        if "ok" not in io:
+            return bad, True
+        a = self.build(c["array"])
+        dt = a.values.dtype
+        cast = c["cast"]
+
+        def expect(x):
+            if cast or dt == object:
+                return core.canon_value(x)
+            try:
+                return core.canon_value(np.asarray(x).astype(dt)[()])
+            except Exception:
+                return None
+
+        def same(e, got):
+            return e is None or e == got or same_number(e, got)
+
+        plist = [int(p) for p in pos.reshape(-1).tolist()]
+        want = [expect(x) for x in bv.reshape(-1).tolist()] if bv.size else []
+        allowed = {}
+        for p, e in zip(plist, want):
+            allowed.setdefault(p, []).append(e)
+        res, before = io["ok"]["result"]["values"], io["orig_before"]["values"]
+        if len(res) != len(before):
+            return ["shape"], True
+        for i, (x, y) in enumerate(zip(before, res)):
+            if i in allowed:
+                if not any(same(e, y) for e in allowed[i]):
+                    bad.append("written.values"); break
+            elif x != y and not (cast and same_number(x, y)):
+                bad.append("frame.values"); break
+        rb = io["ok"].get("readback")
+        if rb is not None and len(set(plist)) == len(plist):
+            if "ok" not in rb:
+                bad.append("readback.outcome")
+            elif len(rb["ok"]["values"]) != len(want) or not all(same(e, y) for e, y in zip(want, rb["ok"]["values"])):
+                bad.append("readback.values")
+        return bad, True
+
     def judge(self, c, io, ans):
-        lean = ans["lib"]
         bad, prop_bad = [], []
-        a = core.build_array(c["array"], 0)
+        a = self.build(c["array"])
         value, rshape = self.rhs_of(c)
-        env = core.CellEnv([a.values], rhs=np.asarray(value, dtype=object if c["rkind"] == "O" else None))
-        if "ok" in lean:
-            k = lean["ok"]["vkind"]
-            lo = core.lean_obs_to_canon(lean["ok"], env, cast_kind=k if k in DT else None)
-            lo["scalar"] = False
-            lo["attrs"] = None
-            lean = {"ok": lo}
-        imp = io if "err" in io else {"ok": io["ok"]["result"]}
-        d = core.diff_obs(imp, lean, keys=("dims", "shape", "axes", "values", "vkind"))
-        bad += [("M." + x if x == "errclass" else x) for x in d]
+        modelled = self.modelled(c)
+        lean = ans["lib"] if modelled else None
+        if modelled:
+            env = core.CellEnv([a.values], rhs=to_object_array(value) if c["rkind"] == "O" else np.asarray(value.values if isinstance(value, DimArray) else value))
+            if "ok" in lean:
+                k = core.ckind(lean["ok"]["vkind"])
+                lo = core.lean_obs_to_canon(lean["ok"], env, cast_kind=k if k in DT else None)
+                lo["vkind"] = k
+                lo["scalar"] = False
+                lo["attrs"] = None
+                lean = {"ok": lo}
+            imp = io if "err" in io else {"ok": io["ok"]["result"]}
+            d = core.diff_obs(imp, lean, keys=("dims", "shape", "axes", "values", "vkind"))
+            bad += [("M." + x if x == "errclass" else x) for x in d]
+        obad, decided = self.oracle(c, io, value)
+        prop_bad += obad
         if "ok" in io:
             res = io["ok"]["result"]
             before = io["orig_before"]
-            # frame: labels, dims, metadata untouched
-            for k2 in ("dims", "shape", "attrs"):
+            # frame: labels, dims, metadata (of the array and of every axis) untouched
+            for k2 in ("dims", "shape"):
                 if res[k2] != before[k2]:
                     prop_bad.append("frame." + k2)
+            if io["ok"]["meta"]["attrs"] != io["meta_before"]["attrs"]:
+                prop_bad.append("frame.attrs")
+            if io["ok"]["meta"]["axes"] != io["meta_before"]["axes"]:
+                prop_bad.append("frame.axes.attrs")
             if [(x["name"], x["labels"]) for x in res["axes"]] != [(x["name"], x["labels"]) for x in before["axes"]]:
                 prop_bad.append("frame.axes")
             # inplace=False leaves the original untouched
-            if not c["inplace"] and io["orig_after"] != before:
+            if not c["inplace"] and (io["orig_after"] != before or io["meta_after"] != io["meta_before"]):
                 prop_bad.append("original_modified")
             if c["inplace"] and io["orig_after"] != res:
                 prop_bad.append("inplace_not_applied")
-            # exactly the cells the same index reads are written
-            sel = self.selected_cells(c)
-            if sel is not None:
-                for i, (x, y) in enumerate(zip(before["values"], res["values"])):
-                    if i not in sel and x != y and not (c["cast"] and same_number(x, y)):
-                        prop_bad.append("frame.values"); break
-                rv = rhs_values(1, c["rkind"], c.get("rflavour"))
-                if c["cast"]:
-                    # no assigned value is truncated or lost: every selected cell holds one of the assigned values
-                    allowed = set(map(lambda v: json_key(core.canon_value(v if not isinstance(v, np.generic) else v.item())),
-                                      np.asarray(value, dtype=object).reshape(-1).tolist()))
-                    for i in sel:
-                        if json_key(res["values"][i]) not in allowed and not any(same_number(res["values"][i], json_unkey(k3)) for k3 in allowed):
-                            prop_bad.append("written.values"); break
+            if not modelled:
+                # resulting dtype kind, from the widening rules of the property (the table proved loss-free)
+                ak, vk = a.values.dtype.kind, np.asarray(value.values if isinstance(value, DimArray) else value).dtype.kind
+                want = self.cast_model(ak, vk) if c["cast"] else ak
+                if core.ckind(want) != res["vkind"]:
+                    bad.append("vkind")
             # read-back returns what was written (no repeats in the index => lean's readback is exact)
             rb = io["ok"]["readback"]
-            lrb = ans.get("readback")
+            lrb = ans.get("readback") if modelled else None
             if rb is not None and lrb is not None and "ok" in lrb and "ok" in rb:
-                k = lrb["ok"]["vkind"]
+                k = core.ckind(lrb["ok"]["vkind"])
                 lo = core.lean_obs_to_canon(lrb["ok"], env, cast_kind=k if k in DT else None)
                 lo["scalar"] = len(lo["dims"]) == 0
                 if rb["ok"]["values"] != lo["values"]:
                     prop_bad.append("readback.values")
-        elif "ok" in lean:
+        elif (modelled and "ok" in lean) or (not modelled and decided):
             prop_bad.append("outcome:" + io["err"])
         if not bad and not prop_bad:
             return None
         return {"kind": "P" if prop_bad else "M", "differs": sorted(set(bad + prop_bad)), "msg": io.get("msg")}
 
-    def selected_cells(self, c):
-        """flat positions that the same index reads (through an index-tracking array)"""
-        if c.get("boolnd") is not None:
-            return set(i for i, m in enumerate(c["boolnd"]) if m)
-        old = da.get_option("indexing.by")
-        try:
-            da.set_option("indexing.by", c["option"])
-            a = core.build_array(c["array"], 0)
-            t = DimArray(np.arange(a.size).reshape(a.shape), axes=[ax.copy() for ax in a.axes])
-            r = c01.call_take(t, copy.deepcopy(c))
-            return set(int(x) for x in np.asarray(r).reshape(-1).tolist())
-        except Exception:
-            return None
-        finally:
-            da.set_option("indexing.by", old)
+    @staticmethod
+    def cast_model(a, v):
+        if a == v or a == "O" or (a == "f" and v == "i") or (a == "U" and v == "S"):
+            return a
+        if a == "i" and v == "f":
+            return "f"
+        if a == "S" and v == "U":
+            return "U"
+        return "O"
 
     def nontrivial(self, c):
         return len(c["array"]["axes"]) >= 1
 
     def features(self, c, io):
         f = {"outcome": "err:" + io["err"] if "err" in io else "ok", "akind": c["array"]["vkind"], "rkind": c["rkind"],
-             "cast": c["cast"], "inplace": c["inplace"], "rhs": c["rhs"], "spelling": c["spelling"], "mode": c["mode"]}
+             "cast": c["cast"], "inplace": c["inplace"], "rhs": c["rhs"], "spelling": c["spelling"], "mode": c["mode"],
+             "rhs_as": c.get("rhs_as", "plain"), "vdtype": c["array"].get("vcast", "default"),
+             "tol": "nloc" if c["spelling"] == "nloc" else "tol=" if c.get("tol") else "none",
+             "stratum": "boolnd" if c.get("boolnd") is not None else "values_setter" if c.get("setter") else "index",
+             "modelled": self.modelled(c)}
+        if c.get("boolnd") is not None:
+            f["boolnd.mask"] = c.get("maskform", "ndarray")
+            f["boolnd.rhs"] = c["rhs"]
+            f["boolnd.spelling"] = c["spelling"]
+        if c.get("setter"):
+            f["setter.rhs"] = c["rhs"] + ("/" + c["rhs_as"] if c.get("rhs_as") else "")
+            f["setter.kinds"] = c["array"]["vkind"] + "<-" + c["rkind"]
         for k in c.get("_ixkinds", []):
             f["ix:" + k] = 1
         return f
